@@ -15,6 +15,7 @@
 import LtVerif.Proofs.Deflate
 import LtVerif.Proofs.DeflateStream
 import LtVerif.Proofs.DeflateRfc
+import LtVerif.Proofs.DeflateScan
 namespace LtVerif.C19
 open LtVerif B LtVerif.Deflate
 
@@ -63,6 +64,37 @@ example : ∀ it ∈ demoAE, it.wf := by
   simp only [demoAE, List.mem_cons, List.not_mem_nil, or_false] at h
   rcases h with rfl | rfl | rfl <;>
     simp [AEItem.wf, isOws, isTokenish, QValue.wf, Coding.label, sp, ht, comma, semi, isDigit, ofString]
+
+/-- The scan loop of mod_deflate_choose_encoding AS THE C POINTER LOOP IT IS (`Scan.scanLoop` /
+    `Scan.paramLoop` / `Scan.qZeroAt` in Model/DeflateScan.lean: skip SP/HTAB/',', token up to
+    SP/HTAB/','/';'/NUL, memcmp ladder, skip SP/HTAB, `while (*value == ';')` with the
+    `q=0[.0*]` look-ahead through a second pointer and the skip to the next ';' / ',' / NUL,
+    `accept_encoding |= enc`) computes, for EVERY byte string (NUL-cut like a C string), exactly the
+    accept set of the specification-style scanner all other negotiation theorems speak about.
+    Hence every theorem stated over `chooseEncoding` / `acceptSet` holds of the loop. -/
+theorem c19_scan_loop_refines (hdr : Bytes) (allowed : List CSet) :
+    Scan.scanC hdr = acceptSet hdr ∧
+    Scan.chooseEncodingC allowed hdr = chooseEncoding allowed hdr :=
+  ⟨Scan.scanC_eq_acceptSet hdr, Scan.chooseEncodingC_eq allowed hdr⟩
+
+example : Scan.scanC (ofString " gzip ;q=0 , deflate; Q=0.5,x-gzip;x;q=0.000;y,gzip deflate;q=0. ,br") =
+    { deflate := true, gzip := true } := by decide
+example : Scan.scanC (ofString "gzip;q=0.0001,deflate;q=0,x-gzip;q=00") = { gzip := true, xgzip := true } := by decide
+example : Scan.scanC ((ofString "deflate;q=0.0") ++ [0] ++ ofString ",gzip") = {} := by decide
+
+/-- The listed / allowed clause for the C loop itself: for every RFC 9110 12.5.3 list (any optional
+    white space, any weights), what the pointer loop followed by the selection loop answers is
+    allowed and explicitly listed with a non-zero weight; it answers nothing only if no allowed coding
+    is so listed.  (`c19_negotiation_rfc` transported along `c19_scan_loop_refines`.) -/
+theorem c19_negotiation_rfc_loop (allowed : List CSet) (l : List AEItem) (hl : ∀ it ∈ l, it.wf) :
+    (∀ c, Scan.chooseEncodingC allowed (renderAE l) = some c →
+      (∃ x ∈ allowed, x.mem c = true) ∧ listedAcceptable l c) ∧
+    (Scan.chooseEncodingC allowed (renderAE l) = none →
+      ∀ x ∈ allowed, ∀ c, x.mem c = true → ¬ listedAcceptable l c) := by
+  rw [Scan.chooseEncodingC_eq]
+  exact c19_negotiation_rfc allowed l hl
+
+example : Scan.chooseEncodingC (encodingsToFlags none) (renderAE demoAE) = some .deflate := by decide
 
 /-- For ARBITRARY header bytes (also values outside the RFC grammar): the chosen coding is in an
     allowed entry, some scanned element carries its label with a weight that is not zero, and
